@@ -228,17 +228,24 @@ func TestGen(t *testing.T) {
 		}
 	} else {
 		type cfg struct{ n, t, v int }
-		cfgs := []cfg{{3, 2, 1}, {3, 3, 2}, {4, 2, 1}, {4, 3, 2}, {4, 4, 1}, {5, 2, 2}, {5, 3, 1}, {5, 5, 1}, {6, 3, 1}, {6, 4, 1}}
+		var cfgs []cfg
+		reps := 1
 		if hx.Thorough() {
-			cfgs = nil
+			reps = 2
+		}
+		for k := 0; k < reps; k++ {
 			for n := 3; n <= 6; n++ {
 				for th := 2; th <= n; th++ {
-					for v := 1; v <= 2; v++ {
-						cfgs = append(cfgs, cfg{n, th, v})
+					if hx.Thorough() {
+						cfgs = append(cfgs, cfg{n, th, 1}, cfg{n, th, 2})
+					} else {
+						cfgs = append(cfgs, cfg{n, th, 1 + (n+th)%2})
 					}
 				}
 			}
-			cfgs = append(cfgs, cfg{7, 3, 1}, cfg{7, 5, 1}, cfg{8, 4, 1}, cfg{8, 6, 1})
+		}
+		if hx.Thorough() {
+			cfgs = append(cfgs, cfg{7, 2, 1}, cfg{7, 3, 1}, cfg{7, 5, 1}, cfg{8, 4, 1}, cfg{8, 6, 1}, cfg{8, 8, 1})
 		}
 		for _, c := range cfgs {
 			todo = append(todo, Ceremony{Algo: "pedersen", N: c.n, T: c.t, Vals: c.v})
